@@ -625,6 +625,74 @@ class SimpleOp(Contract):
 CONTRACTS += [SimpleOp(k) for k in SimpleOp.OPS]
 
 
+class SubsetInplace(SimpleOp):
+    """subsetVariables(..., inplace=True) on the same file as SimpleOp: the call completes, returns the RECEIVER, which is still
+    well-formed, holds exactly the requested variables (the very same objects, every element untouched) and all its dimensions"""
+    OPS = {
+        'subsetVariables(inplace)': ('subsetVariables', [['v', 'w']], dict(inplace=True)),
+        'subsetVariables(inplace, exclude)': ('subsetVariables', [['u', 'p']], dict(inplace=True, exclude=True)),
+        'subsetVariables(inplace, nothing to drop)': ('subsetVariables', [['v', 'u', 'w', 'p']], dict(inplace=True)),
+    }
+    KEEP = {'subsetVariables(inplace)': ('v', 'w'), 'subsetVariables(inplace, exclude)': ('v', 'w'), 'subsetVariables(inplace, nothing to drop)': ('v', 'u', 'w', 'p')}
+
+    def ensures(self, inp, res, I):
+        keep = self.KEEP[self.op]
+        out = wf_clauses(res, {'t': True, 'y': False})
+        out.append(('the result is the receiver', res is self.f))
+        if not hasattr(res, 'attrs') or 'variables' not in res.attrs:
+            return out
+        vs, dims = res.attrs['variables'], res.attrs['dimensions']
+        out += [('exactly the requested variables remain', sorted(vs.keys()) == sorted(keep)),
+                ('the remaining variables are the same objects', all(vs.get(k) is self.vars[k] for k in keep)),
+                ('dimensions untouched', sorted(dims.keys()) == ['s', 't', 'y'] and And(eq(dims['t'].attrs['_len'], self.n['t']), eq(dims['y'].attrs['_len'], self.n['y']))),
+                ('file attributes kept', res.attrs.get('title') == 'src')]
+        q = [z3.Int('q0'), z3.Int('q1'), z3.Int('q2')]
+        for k in keep:
+            d = self.vd[k]
+            idx = tuple(q[:len(d)])
+            rng = And(*[And(ge(i, 0), lt(i, self.n[x])) for i, x in zip(idx, d)])
+            out += [('%s: every element untouched' % k, Implies(rng, eq(self.vars[k].buf.get(idx), self.pre[k](idx)))),
+                    ('%s: dimension tuple and attributes kept' % k, tuple(self.vars[k].attrs.get('dimensions', ())) == d and self.vars[k].attrs.get('units') == 'ppb')]
+        return out
+
+    def replay(self, c):
+        import numpy as np
+        P = import_real()
+        keep = self.KEEP[self.op]
+        for nt, ny in ((int(c['nt']), int(c['ny'])), (3, 4)):
+            if not (2 <= nt <= 20 and 2 <= ny <= 20):
+                continue
+            f = P.PseudoNetCDFFile()
+            f.createDimension('t', nt).setunlimited(True)
+            f.createDimension('y', ny)
+            f.createDimension('s', 1)
+            f.title = 'src'
+            rng = np.random.default_rng(9)
+            n = dict(t=nt, y=ny, s=1)
+            data = {k: rng.random(tuple(n[d] for d in dims)) for k, dims in self.vd.items()}
+            objs = {k: f.createVariable(k, 'd', dims, values=data[k].copy(), units='ppb') for k, dims in self.vd.items()}
+            try:
+                g = f.subsetVariables(*[list(a) for a in self.args], **self.kw)
+            except Exception as e:
+                return False, dict(raised=type(e).__name__, message=str(e)[:160], op=self.op, nt=nt, ny=ny)
+            bad = []
+            if g is not f:
+                bad.append('the result is not the receiver')
+            if sorted(g.variables.keys()) != sorted(keep):
+                bad.append('variables %r expected %r' % (sorted(g.variables.keys()), sorted(keep)))
+            if {d: len(v) for d, v in g.dimensions.items()} != n or not g.dimensions['t'].isunlimited() or g.dimensions['y'].isunlimited():
+                bad.append('dimensions changed')
+            for k in keep:
+                if k in g.variables and (g.variables[k] is not objs[k] or not np.array_equal(np.asarray(g.variables[k][...]), data[k]) or tuple(g.variables[k].dimensions) != self.vd[k]):
+                    bad.append('variable %s changed' % k)
+            if bad:
+                return False, dict(op=self.op, nt=nt, ny=ny, failed=bad)
+        return True, dict(op=self.op)
+
+
+CONTRACTS += [SubsetInplace(k) for k in SubsetInplace.OPS]
+
+
 # ---------------------------------------------------------------------------
 # bounded stand-in
 # ---------------------------------------------------------------------------
@@ -700,7 +768,7 @@ def bounded_replay(p):
 META = dict(
     level='other',
     technique='contracts proved on the dimension/attribute book-keeping and on the well-formedness of the results of five whole operations (pyvc) + bounded run-time contract wf(result) over operation sequences',
-    text='Proved for files of ANY size: copy, subsetVariables (include / exclude), renameVariable, renameDimension, removeSingleton (expected variables, dimension tuples, every element, attributes, fresh buffers, input unchanged); reorderDimensions for all 6 orders of three dimensions (dimension tuples, shapes, every element at the permuted index, input unchanged); the results of sliceDimensions (6 selector kinds), applyAlongDimensions, stack (2, 3 files), pncbo and mask are well-formed (dimension names exist, '
+    text='Proved for files of ANY size: copy, subsetVariables (include / exclude; in place: completes, returns the receiver holding exactly the requested variable objects untouched), renameVariable, renameDimension, removeSingleton (expected variables, dimension tuples, every element, attributes, fresh buffers, input unchanged); reorderDimensions for all 6 orders of three dimensions (dimension tuples, shapes, every element at the permuted index, input unchanged); the results of sliceDimensions (6 selector kinds), applyAlongDimensions, stack (2, 3 files), pncbo and mask are well-formed (dimension names exist, '
          'shape = dimension lengths in order, unlimited flags kept, listed attributes retrievable). Proved (all inputs): dimension objects store length/flag, attribute list book-keeping of __setattr__/__delattr__, allocation of plain and masked variables from the parent dimension lengths (ranks 0,1,2,4; symbolic lengths), '
          'copyDimension length and unlimited-flag propagation. Bounded (never counted as proved): wf(result) checked at run '
          'time on the real operations for all catalogue sequences up to the stated length; numpy shape semantics cannot be '
